@@ -187,11 +187,13 @@ func (op _OpcodeType) decodeI(x uint32) (as abi.As, arg *abi.AsArgument, argRaw 
 							continue
 						}
 						arg.Imm = int32((x >> 20) & 0b_1_1111)
+						argRaw.Imm = arg.Imm
 					} else {
 						if ctx.Funct7>>1 != x>>26 {
 							continue
 						}
 						arg.Imm = int32((x >> 20) & 0b_11_1111)
+						argRaw.Imm = arg.Imm
 					}
 				}
 				if op == _OpBase_SYSTEM && funct3 == 0 {
